@@ -99,6 +99,11 @@ def fam_text(name, n):
         return "@" * n + "{"
     if name == "backslash_lines":
         return "\\\n" * n + "@a{k}"
+    if name == "backslash_runs":
+        # long runs of backslashes in front of delimiters (the escape test counts the run)
+        return "@a{k, t = {" + ("\\" * 40 + "}" + "\\" * 41 + "{") * (n // 40) + "}}\n@a{j}"
+    if name == "backslash_run_long":
+        return "@a{k, t = {" + "\\" * (n * 10) + "}}\n@comment{" + "\\" * (n * 10 + 1) + "}}\n@a{j}"
     if name == "string_refs":
         return "".join("@string{s%d = {v%d}}\n" % (i, i) for i in range(n)) + "".join("@a{k%d, t = s%d}\n" % (i, i) for i in range(n))
     if name == "at_word_runs":
@@ -121,7 +126,7 @@ FAMILIES = ["blank_lines", "blank_lines_then_entry", "crlf_blank_lines", "commen
             "entries_one_line", "duplicate_entries", "fields", "dup_fields", "nest_value", "nest_value_open", "nest_comment",
             "nest_preamble", "nest_quote", "close_braces", "long_line", "long_free_line", "unterminated_openers",
             "unterminated_openers_sameline", "unterminated_strings", "unterminated_comments", "quotes", "commas", "equals",
-            "ats", "backslash_lines", "string_refs", "string_chain", "string_cycle", "at_word_runs", "at_dotted_words", "eof_in_constructs"]
+            "ats", "backslash_lines", "backslash_runs", "backslash_run_long", "string_refs", "string_chain", "string_cycle", "at_word_runs", "at_dotted_words", "eof_in_constructs"]
 QUADRATIC = {"duplicate_entries", "unterminated_openers_sameline"}   # O(n^2) work inside the library: capped sizes
 
 
